@@ -6,7 +6,7 @@ build and executes  path-to-source + edge  with full checks on the edge.
 
 Worker side:  python -m harness.mgr_replay worker <job.pickle> <shard> <nshards>   (prints one JSON line)
 """
-import json, os, pickle, subprocess, sys, tempfile, time, collections
+import json, os, pickle, subprocess, sys, tempfile, time, collections, hashlib
 
 PY = "/venv/bin/python"
 
@@ -132,6 +132,8 @@ def worker_main(jobfile, shard, nshards):
     def fresh():
         return ml.World(uni, init["mem"], taskspec)
 
+    want_digest = job.get("digest", False)
+    digests, transcripts = {}, {}
     epi = {"cur": None}     # (position in the path, leaf) of the frozen episode inserted into the current replay, or None
 
     def fail(tags, summary, ei, detail, known=None):
@@ -243,6 +245,15 @@ def worker_main(jobfile, shard, nshards):
                 fail([t_, "C01"] if t_ == "C03" else [t_], f"{lab['a']}({lab.get('kind', lab.get('l', ''))}): the manager now holds a definition over a "
                      f"location outside the specification's universe: {u}", eis[0], {"uncovered": str(u)})
             return
+        if want_digest and epi["cur"] is None:
+            try:
+                dump = w.m.dump()
+            except Exception as ex_:
+                dump = "dump raised " + type(ex_).__name__
+            tr = json.dumps([res["excname"], sorted((k, repr(v)) for k, v in obs["mem"].items()), dump], default=str)
+            digests[eis[0]] = hashlib.sha1(tr.encode()).hexdigest()[:12]
+            if len(transcripts) < 40:
+                transcripts[eis[0]] = tr[:1500]
         if lab.get("trig") and epi["cur"] is None:
             stats["nontrivial"] += 1
         if len(samples) < 3 and lab.get("trig"):
@@ -415,16 +426,16 @@ def worker_main(jobfile, shard, nshards):
             epi["cur"] = c
             process(key)
         epi["cur"] = None
-    print(json.dumps({"fails": fails, "stats": dict(stats), "samples": samples}, default=str))
+    print(json.dumps({"fails": fails, "stats": dict(stats), "samples": samples, "digests": digests, "transcripts": transcripts}, default=str))
 
 
 # ---------------------------------------------------------------------------------------------------------
 # main-process side
 
-def run_replay(g, universe, keys, scratch, mode, hashseeds, nshards, queries=True, timeout=3600, fan_keep=1.0, seed=0, episodes=0):
-    """-> (fails, stats, samples) aggregated over hash seeds and shards"""
+def run_replay(g, universe, keys, scratch, mode, hashseeds, nshards, queries=True, timeout=3600, fan_keep=1.0, seed=0, episodes=0, digest=None):
+    """-> (fails, stats, samples) aggregated over hash seeds and shards; digest: dict filled with {(mode, hashseed): {edge: transcript digest}}"""
     job = {"graph": g, "universe": universe, "keys": keys, "scratch": scratch, "mode": mode, "queries": queries,
-           "fan_keep": fan_keep, "seed": seed, "episodes": episodes}
+           "fan_keep": fan_keep, "seed": seed, "episodes": episodes, "digest": digest is not None}
     fd, jobfile = tempfile.mkstemp(prefix="xdv-job-", suffix=".pickle")
     with os.fdopen(fd, "wb") as fh:
         pickle.dump(job, fh)
@@ -450,6 +461,9 @@ def run_replay(g, universe, keys, scratch, mode, hashseeds, nshards, queries=Tru
                 fails.append(f)
             stats.update(r["stats"])
             samples.extend(r["samples"])
+            if digest is not None:
+                digest.setdefault((mode, hs), {}).update({int(k): v for k, v in r.get("digests", {}).items()})
+                digest.setdefault("transcripts", {}).setdefault((mode, hs), {}).update({int(k): v for k, v in r.get("transcripts", {}).items()})
         return fails, stats, samples
     finally:
         os.remove(jobfile)
